@@ -86,6 +86,11 @@ func c09Peer(entries []jEntry) (sig, what string, compared int, outside bool) {
 					}
 					for j, u := range e.Trs {
 						if j != i && u.Mid == t.Mid {
+							if c09Wrapped(e.Trs) {
+								// greaterMid++ went past MaxInt64: the numbering restarts at MinInt64 and
+								// repeats itself at the next CreateOffer (C06's greater-mid-overflow)
+								return "greater-mid-overflow", fmt.Sprintf("call %d: CreateOffer gave transceiver %d the mid %q of transceiver %d after the counter wrapped", k, i, t.Mid, j), compared, outside
+							}
 							return "fresh-mid-equals-existing-transceiver-mid", fmt.Sprintf("call %d: CreateOffer gave transceiver %d the mid %q of transceiver %d", k, i, t.Mid, j), compared, outside
 						}
 					}
@@ -157,9 +162,9 @@ func c09Peer(entries []jEntry) (sig, what string, compared int, outside bool) {
 		if e.Status == "ok" && e.InModel {
 			switch e.Op.Op {
 			case "sld":
-				key := "offer"
-				if e.Op.Ty == "answer" {
-					key = "answer"
+				key := "answer" // pranswer and answer both apply the last created answer
+				if e.Op.Ty == "offer" {
+					key = "offer"
 				}
 				if d := lastCreated[key]; d != nil {
 					a := c09Applied{what: "local " + key}
@@ -186,6 +191,15 @@ func c09Peer(entries []jEntry) (sig, what string, compared int, outside bool) {
 		}
 	}
 	return "", "", compared, outside
+}
+
+func c09Wrapped(trs []jTr) bool {
+	for _, t := range trs {
+		if t.Mid == "-9223372036854775808" {
+			return true
+		}
+	}
+	return false
 }
 
 func c09Unusable(secs []jSec) bool {
@@ -228,6 +242,9 @@ func c09Run(c jCase) (V, Verdict) {
 			v = Fail(sig, fmt.Sprintf("peer %d %s", pi, what))
 		}
 	}
+	if sig, what := log.projFailure(); sig != "" && v.OK {
+		v = Fail(sig, what)
+	}
 	if v.OK {
 		v.NonTrivial = descs >= 2 && total >= 2
 		v.Class = fmt.Sprintf("peers%d/descs%d/compared%d", c.Peers, min(descs, 5), min(total/4*4, 16))
@@ -240,7 +257,7 @@ func c09Run(c jCase) (V, Verdict) {
 
 func c09Corpus() []jCase {
 	sec := func(k, m, d string) jSec { return jSec{Kind: k, Mid: m, Dir: d, Codec: true} }
-	return []jCase{
+	return append([]jCase{
 		// the C06 witness: the appended data section reuses the remote's mid "1"
 		{Peers: 1, Ops: []jOp{
 			{Op: "srd", Ty: "offer", Desc: &jDesc{Secs: []jSec{sec("audio", "1", "sendrecv")}, Group: jStr("BUNDLE 1")}},
@@ -266,6 +283,23 @@ func c09Corpus() []jCase {
 			{Op: "add", Kind: "video", Dir: "recvonly"},
 			{Op: "srd", Ty: "offer", Desc: &jDesc{Secs: []jSec{sec("audio", "7", "sendrecv")}, Group: jStr("BUNDLE 7")}},
 			{Op: "offer"}}},
+		// greaterMid wraps around after a remote mid MaxInt64-1: the second offer repeats a mid
+		{Peers: 1, Ops: []jOp{
+			{Op: "srd", Ty: "offer", Desc: &jDesc{Secs: []jSec{sec("video", "9223372036854775806", "sendrecv")}, Group: jStr("BUNDLE 9223372036854775806")}},
+			{Op: "answer"}, {Op: "sld", Ty: "answer"},
+			{Op: "add", Kind: "audio", Dir: "recvonly"}, {Op: "add", Kind: "audio", Dir: "recvonly"}, {Op: "offer"},
+			{Op: "add", Kind: "audio", Dir: "recvonly"}, {Op: "offer"}}},
+		// stale descriptions (Coq: ex_stale_offer, ex_stale_answer): an offer created before a remote
+		// exchange and applied after it; an answer created for an earlier remote offer
+		{Peers: 1, Ops: []jOp{
+			{Op: "add", Kind: "audio", Dir: "sendrecv"}, {Op: "offer"},
+			{Op: "srd", Ty: "offer", Desc: &jDesc{Secs: []jSec{sec("video", "v", "sendonly")}, Group: jStr("BUNDLE v")}},
+			{Op: "answer"}, {Op: "sld", Ty: "answer"}, {Op: "sld", Ty: "offer"}}},
+		{Peers: 1, Ops: []jOp{
+			{Op: "srd", Ty: "offer", Desc: &jDesc{Secs: []jSec{sec("audio", "a", "sendrecv")}, Group: jStr("BUNDLE a")}},
+			{Op: "answer"}, {Op: "sld", Ty: "answer"},
+			{Op: "srd", Ty: "offer", Desc: &jDesc{Secs: []jSec{sec("audio", "a", "sendrecv"), sec("video", "b", "sendonly")}, Group: jStr("BUNDLE a b")}},
+			{Op: "sld", Ty: "answer"}}},
 		// three rounds, both sides offering, additions on both sides
 		{Peers: 2, Ops: []jOp{
 			{P: 0, Op: "add", Kind: "audio", Dir: "sendrecv"}, {P: 0, Op: "add", Kind: "video", Dir: "sendrecv"}, {P: 0, Op: "dc"},
@@ -277,7 +311,7 @@ func c09Corpus() []jCase {
 			{P: 0, Op: "stop", Idx: 1}, {P: 0, Op: "add", Kind: "audio", Dir: "sendonly"},
 			{P: 0, Op: "offer"}, {P: 0, Op: "sld", Ty: "offer"}, {P: 1, Op: "srdpeer", Ty: "offer"},
 			{P: 1, Op: "answer"}, {P: 1, Op: "sld", Ty: "answer"}, {P: 0, Op: "srdpeer", Ty: "answer"}}},
-	}
+	}, jCorpusOps()...)
 }
 
 func init() {
